@@ -147,6 +147,41 @@ def run(chk):
                               "a point outside the bounding box of the polygon is outside (-1), also when it is almost level with a vertex")
     else:
         chk.broken.append({"name": "near-level points run failed", "detail": r3["_error"][-200:]})
+    # points a few ulps (and 2e-10 relative) above / below a vertex level, at the half-integer abscissae INSIDE the polygon's x-range: the ray rule
+    # must treat "almost level" as not level (exact rational oracle on the exact value of the float); abscissae where the exactly-level point
+    # is on an edge are left out (the near-level point is then inside the tolerance band)
+    import math as _m
+    sub3 = rng.sample(list(range(len(polys))), min(300 if quick else 2500, len(polys)))
+    ulp_cases, ulp_meta = [], []
+    for i in sub3:
+        pl = polys[i]
+        pts = []
+        for (vx, vy) in pl:
+            fy = float(vy)
+            if fy == 0.0:
+                continue
+            ys = [_m.nextafter(fy, _m.inf), _m.nextafter(_m.nextafter(fy, _m.inf), _m.inf), _m.nextafter(fy, -_m.inf), fy * (1 + 2e-10), fy * (1 - 2e-10)]
+            for x2 in range(-1, 8):
+                x = F(x2, 2)
+                if oracle(pl, (x, F(vy))) == 0:
+                    continue
+                for y in ys:
+                    pts.append((x, F(y)))
+        if pts:
+            ulp_cases.append({"poly": [v4(v) for v in pl], "pts": [v4(p) for p in pts], "float": True})
+            ulp_meta.append((pl, pts))
+    r4 = run_impl("geom.py", {"ppc": ulp_cases}, timeout=900) if ulp_cases else {"ppc": []}
+    if "_error" not in r4:
+        for (pl, pts), res in zip(ulp_meta, r4["ppc"]):
+            chk.cov["evaluations"] += len(res)
+            for pnt, r in zip(pts, res):
+                o = oracle(pl, pnt)
+                if r != o and nv < 8:
+                    nv += 1
+                    chk.violation("ppc", {"poly": pl, "point": [str(pnt[0]), str(pnt[1])], "point_float": [float(pnt[0]), float(pnt[1]).hex()]}, {"returned": r},
+                                  f"crossing-number classification {o} for a point a few ulps off a vertex level (-1 outside, 0 on edge, 1 inside)")
+    else:
+        chk.broken.append({"name": "ulp-level points run failed", "detail": r4["_error"][-200:]})
     # vertex order / orientation independence on the implementation
     sub = rng.sample(list(range(len(polys))), min(300, len(polys)))
     rot = [{"poly": [v4(v) for v in (polys[i][1:] + polys[i][:1])], "pts": [v4(p) for p in P], "float": True} for i in sub]
